@@ -64,10 +64,11 @@ lyplg_type_store_hex_string(const struct ly_ctx *ctx, const struct lysc_type *ty
 
     /* store canonical value */
     if (format != LY_VALUE_CANON) {
-        /* make lowercase and store, the value must be dynamic */
-        for (i = 0; i < value_len; ++i) {
+        /* make lowercase and store, the value must be dynamic, so it is a string that ends at the first NULL byte */
+        for (i = 0; (i < value_len) && ((char *)value)[i]; ++i) {
             ((char *)value)[i] = tolower(((char *)value)[i]);
         }
+        value_len = i;
 
         ret = lydict_insert_zc(ctx, (char *)value, &storage->_canonical);
         options &= ~LYPLG_TYPE_STORE_DYNAMIC;
